@@ -259,9 +259,19 @@ def rule_resume_all(ctx):
             okp = strip(a[0])[0] == "call" and strip(a[0])[1].endswith("Pid::from_raw") and strip(a[0])[2][0] == ("param", 1)
             oks = strip(a[1])[0] == "agg" and strip(a[1])[2] == "None"
             ctx.check(okp and oks, R, "detach-args", db.where(bi), "detach(pid(child), None): no signal is injected on detach", "detach called with %s, %s" % (show(a[0]), show(a[1])))
-        # closure: e == ESRCH -> Ok(())
-        cl = [c for c in ctx.prog.closures_of(db)]
+        # e == ESRCH -> Ok(()): in the or_else closure (`if e == ESRCH`) or in ptrace_detach itself (`Err(Errno::ESRCH) => Ok(())`)
+        cl = [c for c in ctx.prog.closures_of(db)] + [db]
         okc = False
+
+        def leads_to_ok(c, s):
+            for _ in range(4):
+                for st in c.blocks[s]["stmts"]:
+                    if st["k"] == "assign" and st["p"]["l"] == 0 and st["r"]["k"] == "agg" and st["r"].get("vname") == "Ok":
+                        return True
+                if c.term(s)["k"] != "goto":
+                    return False
+                s = c.term(s)["t"]
+            return False
         for c in cl:
             co = Origin(c)
             for x in range(c.n):
@@ -269,13 +279,17 @@ def rule_resume_all(ctx):
                 if t["k"] == "switch":
                     atom, hint = switch_atom(c, co, x)
                     consts = [s for s in walk(atom) if is_const(s)]
-                    if any(k[1] == 3 for k in consts):  # ESRCH = 3
+                    is_bool = t.get("oty") == "bool"
+                    if is_bool and any(k[1] == 3 for k in consts):  # ESRCH = 3
                         # the true edge leads to an Ok aggregate
                         for (s, lab) in c.succ_edges(x):
-                            if lab[0] == "sw" and lab[1] != 0:
-                                for st in c.blocks[s]["stmts"]:
-                                    if st["k"] == "assign" and st["p"]["l"] == 0 and st["r"]["k"] == "agg" and st["r"]["vname"] == "Ok":
-                                        okc = True
+                            if lab[0] == "sw" and lab[1] != 0 and leads_to_ok(c, s):
+                                okc = True
+                    elif not is_bool and ("errval(" in show(atom) or "Errno" in show(atom)) and "detach" in show(atom):
+                        # a match on the errno itself: the arm for the value 3
+                        for (s, lab) in c.succ_edges(x):
+                            if lab[0] == "sw" and lab[1] == 3 and leads_to_ok(c, s):
+                                okc = True
         ctx.check(okc, R, "esrch-is-ok", db.where(0), "detach treats ESRCH (thread already gone) as success", "ESRCH is not mapped to Ok in ptrace_detach")
 
 
@@ -396,6 +410,9 @@ def rule_blocking_wait(ctx, R="C03/attach-detach"):
     ws = [(bi, o.call_args(bi)) for bi, t in b.calls(lambda c: (c.short or "").endswith("wait::waitpid"))]
     ctx.floor(R, "waitpid after attach", len(ws), 1)
     for bi, a in ws:
+        nm = CalleeView(b.term(bi)["callee"]).short
+        ctx.check(nm == "nix::sys::wait::waitpid", R, ("blocking-wait", "nix-waitpid"), b.where(bi), "the wait is nix's waitpid (the system call)",
+                  "the attach stop is awaited through %s, a function of the crate that carries the system call's name: what flags reach the kernel, and whether it gives up, is decided there" % nm)
         fl = strip(a[1])
         val = None
         if fl[0] == "agg" and fl[2] == "Some":
